@@ -18,6 +18,7 @@ CONSTANTS
   UseAccounts2 = FALSE
   UseSelf = FALSE
   FundAcct2 = FALSE
+  UseBuild = FALSE
   UseDiverge = FALSE
   UseAdv = FALSE
   Scen = {1, 2, 3, 4, 5, 6, 7, 8}
